@@ -31,9 +31,10 @@ Trace == ndJsonDeserialize(IOEnv.TRACE)
 VARIABLES l,      \* next line of Trace
           T,      \* Derivation!Ends(G, w) of the current case (<<>> if not claimed admissible)
           apio,   \* ApiOutcome of the machine after the root call of the current case
+          TS,     \* Derivation!TreeSets(G, w, B) of the current case: <<tree sets, converged>> (<<>> if not requested)
           root,   \* the begin line of the current case
           rr      \* the line of the root call's return in the current case (0: not yet)
-tvars == <<vars, l, T, apio, root, rr>>
+tvars == <<vars, l, T, TS, apio, root, rr>>
 
 D == INSTANCE Derivation
 
@@ -52,7 +53,7 @@ Idle ==
   /\ G = <<>> /\ w = <<>> /\ B = 1 /\ stack = <<>> /\ ret = NoRet /\ cache = [x \in {} |-> 0]
   /\ calls = 0 /\ cerr = NoErr /\ done = TRUE /\ runs = [x \in {} |-> 0] /\ fails = {}
 
-TraceInit == Idle /\ l = 1 /\ T = <<>> /\ apio = <<>> /\ root = 1 /\ rr = 0
+TraceInit == Idle /\ l = 1 /\ T = <<>> /\ TS = <<>> /\ apio = <<>> /\ root = 1 /\ rr = 0
 
 \* ---- a new case ---------------------------------------------------------------
 Begin ==
@@ -64,6 +65,7 @@ Begin ==
   /\ Ev.adm => D!Admissible(Ev.G)      \* the generator's claims are re-asserted by the specification
   /\ Ev.c06 => D!C06Domain(Ev.G)
   /\ T' = IF Ev.adm /\ Props \cap {"C01", "C04"} # {} THEN D!Ends(Ev.G, Ev.w) ELSE <<>>
+  /\ TS' = IF Ev.adm /\ "C01" \in Props /\ "treesets" \in DOMAIN Ev /\ Ev.treesets THEN D!TreeSets(Ev.G, Ev.w, Ev.B) ELSE <<>>
   /\ apio' = <<>>
   /\ root' = l
   /\ rr' = 0
@@ -81,6 +83,14 @@ TreesValid ==
      \A i \in 1..Len(Ev.trees) :
         IF D!ValidTree(G, w, B, T, Ev.n, Ev.trees[i], Ev.pos, {}) THEN TRUE
         ELSE Print(<<"C01 returned tree is not a derivation: line", l, "node", Ev.n, "pos", Ev.pos, Ev.trees[i]>>, FALSE)
+\* every distinct tree is returned whenever the grammar has finitely many (the oracle's iteration converged)
+TreesComplete ==
+  ("C01" \in Props /\ Ev.top /\ TS # <<>> /\ TS[2] /\ "trees" \in DOMAIN Ev /\ G[Ev.n].k = "memo") =>   \* nonterminals; a Sentence root stops at its first full parse by design
+     LET real == {Ev.trees[i] : i \in 1..Len(Ev.trees)}
+         want == TS[1][Ev.n][Ev.pos - B]
+     IN IF real = want THEN TRUE
+        ELSE Print(<<"C01 returned trees differ from the derivation trees: line", l, "node", Ev.n, "pos", Ev.pos,
+                     "missing", want \ real, "unexpected", real \ want>>, FALSE)
 SpansOK == \A i \in 1..Len(Ev.res) : Ev.res[i][2] <= Ev.res[i][3] /\ Ev.res[i][3] <= B + Len(w)
 C02onCall == ("C02" \in Props /\ Ev.bo > 0) =>
                IF Ev.act <= Len(w) - (Ev.pos - B) + 2 THEN TRUE
@@ -142,15 +152,15 @@ TraceCall ==
   /\ Ev.ev = "call"
   /\ C02onCall
   /\ IF JudgeOnly THEN UNCHANGED vars ELSE MachineCall
-  /\ UNCHANGED <<T, apio, root, rr>>
+  /\ UNCHANGED <<T, TS, apio, root, rr>>
 
 TraceRet ==
   /\ Ev.ev = "ret"
-  /\ C01onRet /\ SpansOK /\ TreesValid
+  /\ C01onRet /\ SpansOK /\ TreesValid /\ TreesComplete
   /\ IF JudgeOnly THEN UNCHANGED vars ELSE MachineRet
   /\ apio' = IF ~JudgeOnly /\ Ev.top /\ apio = <<>> /\ Ev.n = Trace[root].root THEN ApiOutcome' ELSE apio
   /\ rr' = IF Ev.top /\ rr = 0 THEN l ELSE rr
-  /\ UNCHANGED <<T, root>>
+  /\ UNCHANGED <<T, TS, root>>
 
 TraceApi ==
   /\ Ev.ev = "api"
@@ -161,7 +171,7 @@ TraceApi ==
   /\ (~JudgeOnly /\ apio # <<>>) =>
         /\ Ev.node = (apio.node # <<>>)
         /\ Ev.err => Ev.text = TextOf(apio.err.msg, apio.err.pos)
-  /\ UNCHANGED <<vars, T, apio, root, rr>>
+  /\ UNCHANGED <<vars, T, TS, apio, root, rr>>
 
 \* C07: the harness re-reads everything any parser has returned so far (token, value, children, start, end, list
 \* membership) after every top-level call and asks every memoised parser again; a difference is logged as a
@@ -169,7 +179,7 @@ TraceApi ==
 TraceMutation ==
   /\ Ev.ev = "mutation"
   /\ IF "C07" \in Props THEN Print(<<"C07 a returned result was modified afterwards: line", l, "node", Ev.n, "pos", Ev.pos>>, FALSE) ELSE TRUE
-  /\ UNCHANGED <<vars, T, apio, root, rr>>
+  /\ UNCHANGED <<vars, T, TS, apio, root, rr>>
 
 TraceNext ==
   /\ l <= Len(Trace)
